@@ -265,7 +265,15 @@ def client_actor(world, cid_hint, spec, result):
                 if not ok:
                     break
         result["sent"] = sent
-        reading_wait(lambda cl: nfinal(cl)[0] >= sent and False) if spec.get("linger") else None
+        if not spec.get("pingpong") and "left_waiting" not in result:
+            expect = 0
+            for r in reqs[:sent]:
+                expect += 1
+                if closes_connection(r):
+                    break
+            result["expect"] = expect
+            if not reading_wait(lambda cl: nfinal(cl)[0] >= expect):
+                return
     else:
         data = b"".join(b"".join(request_bytes(cid, i, r)) for i, r in enumerate(reqs))
         plan = spec.get("plan")
